@@ -1,4 +1,5 @@
 import Driver.Kernels
+import Driver.Transforms
 open Driver
 
 def handle (line : String) : String :=
@@ -7,6 +8,8 @@ def handle (line : String) : String :=
   | "kr" :: rest => handleKernelRat rest
   | "spec" :: rest => handleSpec rest
   | "specdefaults" :: rest => handleSpecDefaults rest
+  | "tff" :: rest => handleTf true rest
+  | "tfi" :: rest => handleTf false rest
   | "ping" :: _ => "pong"
   | _ => "bad-op"
 
